@@ -435,7 +435,11 @@ def step (st : St) (op impl : List String) : St × List String :=
         | _ => checkStep st pop pimpl pre post
       | none => (st, [])
     let (st2, v2) := checkAlways st1 post
-    ({ st2 with obs := post, haveObs := true, pending := none, aborted := st2.aborted || post.abort }, v1 ++ v2)
+    -- once the endpoint has raised an ABORT (an earlier step of this sequence) it is about to close: what it does with
+    -- further input until the write loop sends the ABORT is outside every property's premise (the step that raises the
+    -- ABORT is still judged)
+    ({ st2 with obs := post, haveObs := true, pending := none, aborted := st2.aborted || post.abort },
+      if st.aborted then [] else v1 ++ v2)
   | _ => ({ st with pending := some (op, impl) }, [])
 
 end ReceiverSpec
